@@ -101,7 +101,8 @@ pub struct GenOut {
 /// C18: a call script over the non-numpy OrderBook API.
 pub fn gen_orderbook_script(id: usize, rng: &mut Sm, n_calls: usize, dir: &str) -> GenOut {
     let tick = rng.range(1, 10) as u32;
-    let t0 = rng.below(1000);
+    // a few clocks start beyond what a double can hold exactly (epoch nanoseconds and above)
+    let t0 = if rng.chance(0.06) { (1u64 << *rng.pick(&[53u32, 60, 62])) + 1 + 2 * rng.below(500) } else { rng.below(1000) };
     let trading0 = !rng.chance(0.1);
     let mut b: OrderBook<10> = OrderBook::new(t0, tick, trading0);
     let band = Band { tick, center: rng.range(50, 5000), half: rng.range(1, 8) };
@@ -208,12 +209,12 @@ pub fn gen_orderbook_script(id: usize, rng: &mut Sm, n_calls: usize, dir: &str) 
             calls.push(c);
         } else if r < 95 {
             // snapshot written from Python, loaded by the Rust core afterwards
-            let path = format!("{}/py-{}-{}.json", dir, id, snaps.len());
+            let path = format!("{}/py-{}-{}{}", dir, id, snaps.len(), *rng.pick(&[".json", ".json", "", ".snapshot", ".v1.bak"]));
             calls.push(json!({"m": "__save__", "args": [path, rng.chance(0.5)], "expect": {"v": null}}));
             snaps.push((path, b.obs()));
         } else {
             // snapshot written by the Rust core, loaded from Python; the script continues on the loaded object
-            let path = format!("{}/rs-{}-{}.json", dir, id, calls.len());
+            let path = format!("{}/rs-{}-{}{}", dir, id, calls.len(), *rng.pick(&[".json", ".json", "", ".dat"]));
             b.save_json(&path, rng.chance(0.5)).unwrap();
             calls.push(json!({"m": "__load__", "args": [path], "expect": {"v": null}}));
             verify(&b, &mut calls);
@@ -267,8 +268,8 @@ fn env_props(env: &Env, calls: &mut Vec<Value>, rng: &mut Sm, all: bool) {
 /// C18: a call script over the non-numpy StepEnv API (deterministic in its seed).
 pub fn gen_stepenv_script(id: usize, rng: &mut Sm, n_calls: usize) -> GenOut {
     let tick = rng.range(1, 10) as u32;
-    let t0 = rng.below(1000);
-    let step_size = *rng.pick(&[16u64, 100, 10_000]);
+    let t0 = if rng.chance(0.06) { (1u64 << *rng.pick(&[53u32, 60, 62])) + 1 + 2 * rng.below(500) } else { rng.below(1000) };
+    let step_size = *rng.pick(&[16u64, 100, 10_000, 10_001]);
     let seed = rng.next() >> rng.below(40);
     let trading0 = !rng.chance(0.1);
     let mut env: Env = Env::new(t0, tick, step_size, trading0);
@@ -430,6 +431,7 @@ fn market_data_expect(env: &Env, traded: &[u32]) -> Value {
 
 pub struct LayoutStats {
     pub bottom_of_range_scripts: usize,
+    pub top_of_range_scripts: usize,
     pub reads_before_first_step: usize,
     pub reads_between_submission_and_step: usize,
     pub quiet_steps: usize,
@@ -453,7 +455,12 @@ pub fn gen_layout_script(id: usize, rng: &mut Sm, numpy_env: bool, st: &mut Layo
     if bottom {
         st.bottom_of_range_scripts += 1;
     }
-    let center = if bottom { rng.range(1, 11) } else { rng.range(50, 3000) };
+    // ... and a tenth at the very top (prices above 2^31, asks up to the largest grid price)
+    let top = !bottom && rng.chance(0.11);
+    if top {
+        st.top_of_range_scripts += 1;
+    }
+    let center = if bottom { rng.range(1, 11) } else if top { (u32::MAX as u64 - 1) / tick as u64 - rng.range(12, 40) } else { rng.range(50, 3000) };
     let mut calls: Vec<Value> = Vec::new();
     let n_steps = rng.range(2, 12);
     let mut reenable = false;
@@ -644,8 +651,9 @@ pub fn gen_layout_script(id: usize, rng: &mut Sm, numpy_env: bool, st: &mut Layo
     calls.push(json!({"m": "get_market_data", "args": [], "kwargs": {}, "expect": market_data_expect(&env, &traded)}));
     if !numpy_env {
         // one order left unplaced (status New) for the data-frame helpers
-        let i = env.place_order(side_of(false), 3, 2, Some((center * tick as u64) as u32 + 20 * tick)).unwrap();
-        calls.push(call("place_order", json!([false, 3, 2]), json!({"price": (center * tick as u64) as u32 + 20 * tick}), json!({"v": i})));
+        let far = ((center + 20).min((u32::MAX as u64 - 1) / tick as u64) * tick as u64) as u32;
+        let i = env.place_order(side_of(false), 3, 2, Some(far)).unwrap();
+        calls.push(call("place_order", json!([false, 3, 2]), json!({"price": far}), json!({"v": i})));
         let h = env.get_level_2_data_history();
         calls.push(call("get_prices", json!([]), json!({}), json!({"v": [h.prices.0, h.prices.1]})));
         calls.push(call("get_volumes", json!([]), json!({}), json!({"v": [h.volumes.0, h.volumes.1]})));
@@ -657,6 +665,46 @@ pub fn gen_layout_script(id: usize, rng: &mut Sm, numpy_env: bool, st: &mut Layo
     calls.push(call("get_trades", json!([]), json!({}), json!({"v": trades_json(env.get_orderbook())})));
     let _ = l2_of::<10>;
     json!({"id": id, "kind": if numpy_env { "stepenvnumpy" } else { "stepenv" }, "ctor": {"args": [seed, t0, tick, step_size], "kwargs": {}}, "calls": calls, "dataframes": true, "self_oracle": true})
+}
+
+/// C19: one level that holds more than 65536 resting orders (order counts beyond 16 bits in arrays, dictionary and
+/// history getters), built through StepEnvNumpy.submit_limit_orders in a single call.
+pub fn gen_mass_level_script(id: usize, rng: &mut Sm) -> Value {
+    let tick = rng.range(1, 10) as u32;
+    let t0 = rng.below(1000);
+    let n = 66_000 + rng.below(3000) as usize;
+    let step_size = n as u64 + 1000;
+    let seed = rng.next() >> 8;
+    let mut env: Env = Env::new(t0, tick, step_size, true);
+    let mut xr = Xoroshiro128StarStar::seed_from_u64(seed);
+    let center = rng.range(50, 3000);
+    let mut calls: Vec<Value> = Vec::new();
+    let layout = |m: &str, v: Vec<u32>| -> Value { json!({"m": m, "args": [], "kwargs": {}, "expect": {"v": v}, "layout": true, "asym": true}) };
+    let (mut sides, mut vols, mut traders, mut prices, mut ids) = (Vec::new(), Vec::new(), Vec::new(), Vec::new(), Vec::new());
+    for k in 0..n + 40 {
+        // n bids at one price (the touch), forty asks spread over a few levels
+        let bid = k < n;
+        let p = if bid { (center - 1) * tick as u64 } else { (center + 1 + (k as u64 % 5)) * tick as u64 } as u32;
+        let v = 1 + (k % 3) as u32;
+        ids.push(env.place_order(side_of(bid), v, (k % 50) as u32, Some(p)).unwrap());
+        sides.push(bid);
+        vols.push(v);
+        traders.push((k % 50) as u32);
+        prices.push(p);
+    }
+    let arg = json!({"tuple": [{"np": "bool", "data": sides}, {"np": "uint32", "data": vols}, {"np": "uint32", "data": traders}, {"np": "uint32", "data": prices}]});
+    calls.push(call("submit_limit_orders", json!([arg]), json!({}), json!({"v": ids})));
+    for _ in 0..2 {
+        env.step(&mut xr);
+        calls.push(call("step", json!([]), json!({}), json!({"v": null})));
+        let tr = traded_per_step(&env, t0, step_size);
+        let lt = *tr.last().unwrap_or(&0);
+        calls.push(layout("level_1_data", doc_level1(&env, lt)));
+        calls.push(layout("level_2_data", doc_level2(&env, lt)));
+    }
+    let traded = traded_per_step(&env, t0, step_size);
+    calls.push(json!({"m": "get_market_data", "args": [], "kwargs": {}, "expect": market_data_expect(&env, &traded)}));
+    json!({"id": id, "kind": "stepenvnumpy", "ctor": {"args": [seed, t0, tick, step_size], "kwargs": {}}, "calls": calls, "self_oracle": true})
 }
 
 fn run_python(ctx: &Ctx, scripts: &Value) -> Result<Value, String> {
@@ -714,7 +762,7 @@ pub fn write_scripts(seed: u64, n: usize, path: &str) -> i32 {
     let scratch = std::env::var("BVMON_SCRATCH").unwrap_or_else(|_| "/tmp".into());
     std::fs::create_dir_all(&scratch).ok();
     let mut scripts = Vec::new();
-    let mut st = LayoutStats { bottom_of_range_scripts: 0, reads_before_first_step: 0, reads_between_submission_and_step: 0, quiet_steps: 0, steps_that_traded: 0, states: 0, asym_states: 0, keys: Vec::new() };
+    let mut st = LayoutStats { bottom_of_range_scripts: 0, top_of_range_scripts: 0, reads_before_first_step: 0, reads_between_submission_and_step: 0, quiet_steps: 0, steps_that_traded: 0, states: 0, asym_states: 0, keys: Vec::new() };
     for i in 0..n {
         match i % 4 {
             0 => scripts.push(gen_orderbook_script(i, &mut rng, 60, &scratch).script),
@@ -848,9 +896,14 @@ pub fn c19(ctx: &Ctx) -> i32 {
     let n_scripts = ctx.tier.pick(2000, 25_000);
     let mut rng = Sm::derive(ctx.seed, 0xC19);
     let mut scripts = Vec::new();
-    let mut st = LayoutStats { bottom_of_range_scripts: 0, reads_before_first_step: 0, reads_between_submission_and_step: 0, quiet_steps: 0, steps_that_traded: 0, states: 0, asym_states: 0, keys: Vec::new() };
+    let mut st = LayoutStats { bottom_of_range_scripts: 0, top_of_range_scripts: 0, reads_before_first_step: 0, reads_between_submission_and_step: 0, quiet_steps: 0, steps_that_traded: 0, states: 0, asym_states: 0, keys: Vec::new() };
     for i in 0..n_scripts {
         scripts.push(gen_layout_script(i, &mut rng, i % 2 == 1, &mut st));
+    }
+    // plus levels holding more than 2^16 orders
+    let n_mass = ctx.tier.pick(1, 4);
+    for k in 0..n_mass {
+        scripts.push(gen_mass_level_script(n_scripts + k, &mut rng));
     }
     let sample = {
         let mut s = scripts[1].clone();
@@ -906,6 +959,8 @@ pub fn c19(ctx: &Ctx) -> i32 {
         "asymmetric_states": st.asym_states,
         "quiet_steps_with_empty_queue": st.quiet_steps,
         "bottom_of_range_scripts": st.bottom_of_range_scripts,
+        "scripts_with_a_level_of_more_than_65536_orders": n_mass,
+        "top_of_range_scripts": st.top_of_range_scripts,
         "reads_before_first_step": st.reads_before_first_step,
         "reads_between_submission_and_step": st.reads_between_submission_and_step,
         "steps_that_traded": st.steps_that_traded,
